@@ -7,6 +7,8 @@ import MptModel.Lemmas.Encode
 import MptModel.Lemmas.EncodeZpe
 import MptModel.Lemmas.EncodeString
 import MptModel.Lemmas.ArrayPush
+import MptModel.Lemmas.EncodeSched
+import MptModel.Lemmas.EncodeCommand
 import MptModel.Lemmas.EncodeDelete
 import MptModel.Lemmas.EncodeArrayXX
 import MptModel.Impl.CodecTable
@@ -82,8 +84,9 @@ example : pyCmd [0x68, 0, 0x69] = none ∧ pyCmd [0x68, 0x69] = some [0x68, 0x69
 /-- The model encoder refines the reference encoder, all four framings: whatever the pieces in which the
     message is pushed and however the window is granted (`caps` = arbitrary growth schedule; calls that take
     only part of their input or ask for space are retried), a finished frame decodes to the message, ends
-    in its only zero byte, and is the reference encoding of the message for the marking that cuts where
-    the encoder calls ended. -/
+    in its only zero byte, and is the reference encoding of the message for *some* marking of its bytes (the
+    lemma behind it, `sched_refinesM`, builds the marking that cuts where the encoder calls ended; the
+    statement here does not pin it — the implementation-independent content is the first conjunct). -/
 theorem encoder_refines (v : Variant) (fill : Byte) (fuel : Nat) (win : List Byte) (chunks : List (List Byte))
     (caps : List Nat) (o : EncOut) (h : encodeSched (.cobs v) fill fuel {} win chunks caps = .ok o) :
     dec v (o.win.take o.st.done) = some chunks.flatten ∧
@@ -146,6 +149,34 @@ theorem encoder_total_all (v : Variant) (fill : Byte) (win : List Byte) (chunks 
   obtain ⟨o, ho⟩ := sched_totalM v fill chunks {} win [] [] hne (by simpa using hsp) hinv
   exact ⟨o, ho, (encoder_refines v fill _ win chunks [] o ho).1⟩
 
+
+/-- No schedule makes the encoder fault, all four framings: started behind finished data `pre`, whatever the
+    pieces, the window and the growth schedule, the caller loop never stores outside the window (`.oob`) and
+    never leaves the modelled states; the only refusals are MissingBuffer (space or calls ran out) and
+    BadValue (an empty piece). -/
+theorem encoder_no_fault (v : Variant) (fill : Byte) (fuel : Nat) (st : EncState) (win pre : List Byte)
+    (chunks : List (List Byte)) (caps : List Nat)
+    (hs : st.scratch = 0) (hd : st.done = pre.length) (hw : win.take st.done = pre) (hl : st.done ≤ win.length) :
+    encodeSched (.cobs v) fill fuel st win chunks caps ≠ .oob ∧
+    encodeSched (.cobs v) fill fuel st win chunks caps ≠ .unmodelled ∧
+    ∀ e, encodeSched (.cobs v) fill fuel st win chunks caps = .err e → e = .MissingBuffer ∨ e = .BadValue :=
+  sched_safeM v fill fuel st win chunks caps pre [] (EncInvM.start v st win pre hs hd hw hl)
+
+/-- "However the output space is granted" with success, all four framings: for every growth schedule `caps`
+    (portions of any size, zero and one byte included, granted only when the encoder took less than offered or
+    asked for space) the loop finishes with a frame that decodes to the message, as soon as the space granted
+    in total reaches two bytes per message byte plus three and one call per piece and per portion is allowed. -/
+theorem encoder_total_caps (v : Variant) (fill : Byte) (fuel : Nat) (win : List Byte) (chunks : List (List Byte))
+    (caps : List Nat) (hne : ∀ c ∈ chunks, c ≠ []) (hf : chunks.length + caps.length + 1 ≤ fuel)
+    (hsp : 2 * chunks.flatten.length + 3 ≤ win.length + caps.sum) :
+    ∃ o, encodeSched (.cobs v) fill fuel {} win chunks caps = .ok o ∧
+      dec v (o.win.take o.st.done) = some chunks.flatten := by
+  have hinv : EncInvM v {} win [] [] := EncInvM.start v {} win [] rfl rfl (by simp) (by simp)
+  obtain ⟨o, ho⟩ := sched_total_capsM v fill fuel {} win chunks caps [] [] hinv hne hf (by simp; omega)
+  exact ⟨o, ho, (encoder_refines v fill _ win chunks caps o ho).1⟩
+
+example : (encodeSched (.cobs .zpeR) 0xEE 12 {} [] [[7, 0, 0, 9]] [1, 0, 1, 1, 1, 1, 1, 1, 1, 1, 1]).toOption.map
+    (fun o => dec .zpeR (o.win.take o.st.done)) = some (some [7, 0, 0, 9]) := by decide
 
 /-! ### `mpt_array_push` (the retry loop that grows the array) -/
 
@@ -276,6 +307,51 @@ theorem cmd_encoder_refuses (st : EncState) (win m : List Byte) (hs : st.scratch
     (hz : (0 : Byte) ∈ m.take (min m.length (win.length - st.done))) (hd : st.done < win.length) (hm : m ≠ []) :
     encodeString st win (some m) = .err .BadEncoding :=
   encodeString_refuses st win m hs hz hd hm
+
+/-- Command text under every split into push calls and every growth schedule, behind finished data `pre`: a
+    finished run has appended exactly the reference frame (the bytes handed over and the delimiter, which is
+    `encStr` of the message and decodes to header ++ message), and no zero byte got in. -/
+theorem cmd_encoder_sched_refines (fill : Byte) (fuel : Nat) (st : EncState) (win pre : List Byte)
+    (chunks : List (List Byte)) (caps : List Nat) (o : EncOut)
+    (hs : st.scratch = 0 ∧ st.ctx = 0) (hw : win.take st.done = pre) (hl : st.done ≤ win.length)
+    (h : encodeSched .command fill fuel st win chunks caps = .ok o) :
+    o.win.take o.st.done = pre ++ (chunks.flatten ++ [0]) ∧ encStr chunks.flatten = some (chunks.flatten ++ [0]) ∧
+    decCmd (chunks.flatten ++ [0]) = some (cmdHeader ++ chunks.flatten) ∧ o.st.scratch = 0 ∧ o.st.ctx = 0 := by
+  have hinv : CmdInv st win pre [] := ⟨hs.1, hs.2, hl, by simpa using hw, by simp⟩
+  obtain ⟨a, b, _, d, e⟩ := cmd_sched_refines fill fuel st win chunks caps pre [] o hinv h
+  simp only [List.nil_append] at d e
+  exact ⟨d, by simp [encStr, e], by simp [decCmd, e], a, b⟩
+
+/-- Command text: no schedule makes the encoder fault, and it finishes as soon as the space granted in total
+    (start window and all portions, of whatever size) holds the message and the delimiter. -/
+theorem cmd_encoder_sched_total (fill : Byte) (fuel : Nat) (st : EncState) (win pre : List Byte)
+    (chunks : List (List Byte)) (caps : List Nat)
+    (hs : st.scratch = 0 ∧ st.ctx = 0) (hw : win.take st.done = pre) (hl : st.done ≤ win.length) :
+    encodeSched .command fill fuel st win chunks caps ≠ .oob ∧
+    encodeSched .command fill fuel st win chunks caps ≠ .unmodelled ∧
+    ((∀ c ∈ chunks, c ≠ []) → (0 : Byte) ∉ chunks.flatten → chunks.length + caps.length + 1 ≤ fuel →
+      st.done + chunks.flatten.length + 1 ≤ win.length + caps.sum →
+      ∃ o, encodeSched .command fill fuel st win chunks caps = .ok o) := by
+  have hinv : CmdInv st win pre [] := ⟨hs.1, hs.2, hl, by simpa using hw, by simp⟩
+  obtain ⟨a, b⟩ := cmd_sched_safe fill fuel st win chunks caps pre [] hinv
+  exact ⟨a, b, fun h1 h2 h3 h4 => cmd_sched_total fill fuel st win chunks caps pre [] hinv h1 h2 h3 h4⟩
+
+example : (encodeSched .command 0xEE 9 {} [] [[0x68, 0x69], [0x21]] [1, 0, 1, 1, 1]).toOption.map
+    (fun o => o.win.take o.st.done) = some [0x68, 0x69, 0x21, 0] := by decide
+
+/-- Command text through `mpt_array_push` (retry loop, +64 growth), behind earlier frames `pre`: every call
+    returns, every piece is taken completely, and the finished data is `pre`, the message and the delimiter. -/
+theorem cmd_array_push_refines (fill : Byte) (a : EncArray) (pre : List Byte) (chunks : List (List Byte))
+    (h : CmdArrInv a pre []) (hne : ∀ c ∈ chunks, c ≠ []) (hz : (0 : Byte) ∉ chunks.flatten) :
+    ∃ a' buf', arrayMessage .command fill a chunks = .ok a' ∧ a'.buf = some buf' ∧
+      buf'.take a'.st.done = pre ++ (chunks.flatten ++ [0]) ∧ encStr chunks.flatten = some (chunks.flatten ++ [0]) ∧
+      CmdArrInv a' (pre ++ (chunks.flatten ++ [0])) [] := by
+  obtain ⟨a', buf', e1, e2, e3, e4⟩ := cmd_arrayMessage_spec fill chunks a pre [] h hne hz
+  simp only [List.nil_append] at e3 e4
+  exact ⟨a', buf', e1, e2, e3, by simp [encStr, hz], e4⟩
+
+example : (arrayMessage .command 0xBE {} [[0x68], [0x69, 0x21]]).toOption.map
+    (fun a => (a.buf.getD []).take a.st.done) = some [0x68, 0x69, 0x21, 0] := by decide
 
 /-- The separator-pattern mode of `mpt_encode_string` (`scratch != 0`) and other delimiters (`_ctx != 0`) are
     not reachable through the library: reset clears both fields and no call of the encoder sets them, so from
